@@ -604,17 +604,19 @@ def check_property(pid, tier='quick', seed=0):
                 from driver import witness as _w
                 w = _w.run_named(bs['run'])
                 entry['result'] = 'failing input found' if w else 'no failing input within the bound'
-                if w and not nviol:
+                if w:
                     d = os.path.join(WORK, 'replay')
                     os.makedirs(d, exist_ok=True)
-                    path = os.path.join(d, f"{pid}-{r['unit']}.registered-bounded-stand-in.json")
+                    tag = re.sub(r'[^A-Za-z0-9_.-]+', '_', bs['run'])
+                    path = os.path.join(d, f"{pid}-{r['unit']}.{tag}.registered-bounded-stand-in.json")
                     json.dump({'property': pid, 'unit': r['unit'], 'obligation': f"{pid}.{r['unit']}.registered-bounded-stand-in", 'kind': 'bounded stand-in (not a proof obligation)',
                                'source': None, 'decided_by': 'bounded check of a function outside the verifier\'s reach: ' + bs['covers'], 'bound': bs['bound'],
                                'verifier_output': '', 'labels': [], 'witness': w}, open(path, 'w'), indent=1)
                     nviol += 1
                     lines.append(f'VIOLATION property={pid} replay={path}')
-            except Exception as e:   # a stand-in that cannot run decides nothing
+            except Exception as e:   # a stand-in that cannot run decides nothing: the part of the property it stands for is undecided
                 entry['result'] = f'not run ({type(e).__name__}: {str(e)[:200]})'
+                undecided.append(f"{bs_unit}: the registered bounded stand-in {bs['run']} could not be run on this tree ({type(e).__name__}: {str(e)[-300:]})".replace('\n', ' '))
             bounded_report.append(entry)
     thorough_extra = {}
     if tier == 'thorough' and not violations and not undecided:
